@@ -116,6 +116,7 @@ func (r CharRecipe) Generate() (*Password, error) {
 	p.Entropy = r.Entropy()
 
 	chars := r.buildCharacterList()
+	chars = verifCanonical(chars)
 	if len(chars) == 0 {
 		return nil, fmt.Errorf("no characters to build pwd from")
 	}
